@@ -8,11 +8,18 @@
   the driver also runs `Conc.run` over the schedule of the session and prints `model-inconsistent`
   should the two ever differ (they cannot: Props/C05Req `req_interleaving_serial`).
 
+  `B` lines are the Before hooks of the Flame (`Model/App` `BeforeKind`, `runBefores`: FIFO, the first one that
+  returns true ends the request before the router is asked and before any context exists).  A hook of these
+  sessions looks at the request's URL path: for a request with another path it is `pass`.  A request some hook
+  answers performs none of its operations (`not-run`); its `E` line shows what the hook sent to the client's
+  writer, and zeros for the flamego writer that was never created.
+
   A lookup is printed as the set of admissible answers (`valueSet`, smallest first, `|`-separated), of
   which `value … c` picks one for every iteration choice `c` (Proofs/Inject `pick_mem`).
 -/
 import Flamego.Model.ConcReq
 import Flamego.Model.Parser
+import Flamego.Model.App
 import Flamego.Driver.Common
 namespace Flamego.Driver.ConcReq
 open Flamego.ConcReq Flamego.Inject
@@ -69,10 +76,25 @@ def showStep (cfg : Config) (op : MicroOp) (pre st : St) : String :=
   | .urlPath _ _, some (.url none) => "u panic"
   | _, _ => "model-inconsistent"
 
+/-- the `act` fields of a `B` line -/
+def parseHook : List String → Option App.BeforeKind
+  | ["p"] => some .pass
+  | ["s", "-"] => some (.stop none)
+  | ["s", w] => match w.splitOn ":" with
+    | [c, n] => if c.isNat && n.isNat then some (.stop (some (c.toNat!, n.toNat!))) else none
+    | _ => none
+  | _ => none
+
+/-- the hooks of the Flame as THIS request meets them: a hook that waits for another path returns false -/
+def hooksFor (hooks : List (Bytes × App.BeforeKind)) (path : Bytes) : List App.BeforeKind :=
+  hooks.map fun (p, k) => if p == path then k else .pass
+
 structure RQ where
   rid : Nat
   route : Nat
   req : Req
+  /-- `some evs`: a Before hook answered the request (and sent `evs`); the router never saw it -/
+  answered : Option (List Writer.UEv) := none
   /-- body line index of every operation -/
   lines : List Nat := []
   endLine : Option Nat := none
@@ -82,24 +104,32 @@ def session (args : List String) (lines : List (List String)) : List String :=
   | [_, bits, rows] =>
     let U := parseUniverse bits rows
     -- pass 1: configuration and requests
+    -- the Before hooks first (set-up: they are all registered before the first request is served)
+    let hooks : List (Bytes × App.BeforeKind) := lines.filterMap fun l =>
+      match l with
+      | "B" :: path :: act => (parseHook act).map fun k => (hexOf path, k)
+      | _ => none
     let init : List Scope × List (Bytes × Route) × List RQ × List Nat × List (Nat × String) := ([[]], [], [], [], [])
     let (app, named, rqs, sched, fixed) := (lines.zipIdx).foldl (fun (acc : List Scope × List (Bytes × Route) × List RQ × List Nat × List (Nat × String)) (li : List String × Nat) =>
       let (app, named, rqs, sched, fixed) := acc
       let (l, i) := li
       match l with
+      | "B" :: _ :: act => (app, named, rqs, sched, (i, if (parseHook act).isSome then "ok" else "bad-op") :: fixed)
       | ["A", t, v] => (app.map (register · (natOf t) (natOf v)), named, rqs, sched, (i, "ok") :: fixed)
       | ["AT", it, _, v] => (app.map (register · (natOf it) (natOf v)), named, rqs, sched, (i, "ok") :: fixed)
       | ["R", name, text] =>
         match Flamego.parse (hexOf text) with
         | some r => (app, named ++ [(hexOf name, r)], rqs, sched, (i, "ok") :: fixed)
         | none => (app, named, rqs, sched, (i, "err") :: fixed)
-      | ["Q", rid, route, head, _, _, ps] =>
+      | ["Q", rid, route, head, path, _, ps] =>
         let routeText : Bytes := match named[natOf route]? with
           | some (_, r) => r.render
           | none => []
         -- the router hands the request its bind parameters and the text of the matched route
         let params : Params := parseParams ps ++ [(B "route", routeText)]
-        (app, named, rqs ++ [{ rid := natOf rid, route := natOf route, req := { head := head == "1", params := params } }], sched, (i, "ok") :: fixed)
+        -- `for _, h := range f.befores { if h(w, r) { return } }` comes first
+        let answered := (App.runBefores (hooksFor hooks (hexOf path)) 0).2
+        (app, named, rqs ++ [{ rid := natOf rid, route := natOf route, req := { head := head == "1", params := params }, answered := answered }], sched, (i, "ok") :: fixed)
       | "O" :: rid :: op =>
         let rid := natOf rid
         let mop : Option MicroOp := if op == ["rs"] then
@@ -108,7 +138,10 @@ def session (args : List String) (lines : List (List String)) : List String :=
         match mop with
         | none => (app, named, rqs, sched, (i, "bad-op") :: fixed)
         | some mop =>
-          if rqs.any (·.rid == rid) then
+          if rqs.any (fun q => q.rid == rid && q.answered.isSome) then
+            -- no context, no handler: the operation is a line of the session that nobody performs
+            (app, named, rqs.map (fun q => if q.rid == rid then { q with lines := q.lines ++ [i] } else q), sched, fixed)
+          else if rqs.any (·.rid == rid) then
             (app, named, rqs.map (fun q => if q.rid == rid then { q with req := { q.req with prog := q.req.prog ++ [mop] }, lines := q.lines ++ [i] } else q),
              sched ++ [rid], fixed)
           else (app, named, rqs, sched, (i, "bad-op") :: fixed)
@@ -122,6 +155,13 @@ def session (args : List String) (lines : List (List String)) : List String :=
     let reqsFn : Nat → Req := fun rid => ((rqs.find? (·.rid == rid)).map (·.req)).getD {}
     let world := Conc.run reqMachine cfg reqsFn sched (Conc.World.start reqMachine reqsFn)
     let outs : List (Nat × String) := rqs.flatMap fun q =>
+      match q.answered with
+      | some evs =>
+        let tr := if evs.isEmpty then "none" else joinWith "," (evs.map showEv)
+        q.lines.map (fun li => (li, "not-run")) ++ (match q.endLine with
+          | some li => [(li, s!"end 0 0 0 {tr}")]
+          | none => [])
+      | none =>
       let n := q.req.prog.length
       let final := Conc.solo reqMachine cfg q.req n
       let inter := world.locals q.rid
